@@ -295,3 +295,229 @@ Example section_index_instance :
   end.
 Proof. vm_compute. repeat split; try reflexivity. discriminate. Qed.
 Print Assumptions section_index_instance.
+
+(* ====================================================================================================================
+   Fourth session: THE IO LAYER (Model/GateIO.v).  An I/O object with its standard output and its error output, every setter
+   of the I/O and of the outputs, section() at both levels, the eight writing methods of IO (which output, which method there,
+   which flags: `io_delegate`, transcribed from api/io/io.py) and the text-writing methods of the output objects - as
+   operations of HISTORIES, every call made on numbered objects:
+     world          the outputs (quiet, verbosity, indentation, formatter kind, stream, decorated?, section?), the I/Os (their two
+                    outputs), the interactive flag of the shared input, whether the class can build a section of itself
+     step w op      the world after the call and what the call showed: ODone | ORaised k | OWrote stream emitted? | ONothing
+     run w ops      all calls of a history, one after the other (a call that raises changes nothing; the history goes on)
+     world0 k a b c the start: one I/O on outputs 0 and 1, formatter kind k, streams that support ANSI or not
+   The gate law below is no longer "by definition": the setters go through Output.set_verbosity's validation, and the iff needs
+   the invariant that every verbosity a history can produce is one of the four levels.
+   ==================================================================================================================== *)
+From Clikit Require Import Model.GateIO Proofs.GateIOLemmas.
+
+(* THE PROPERTY AT IO LEVEL.  After EVERY history from the start (setters on any I/O and output in any order and repetition,
+   invalid verbosities, set_formatter / set_stream, indent, set_interactive, section() of I/Os, of outputs, of sections, other
+   writes), for every I/O i that exists then, every one of the eight writing methods, every flag word (None, any integer): the
+   call changes nothing and its text reaches the stream of the output the method belongs to (write* the standard output's,
+   error* the error output's) IF AND ONLY IF that output is not quiet and its verbosity is at least the lowest level the
+   flags ask for. *)
+Theorem io_gate_iff : forall k sa se cs h i m fl ab o,
+  let w := fst (GateIO.run (world0 k sa se cs) h) in
+  nth_error (w_ios w) i = Some ab -> nth_error (w_outs w) (pick (fst (fst (io_delegate m))) ab) = Some o ->
+  GateIO.step w (IWrite i m fl) = (w, OWrote (s_sid o) (negb (s_quiet o) && (lowest_level fl <=? s_verb o)%Z)).
+Proof. exact io_gate_after_history. Qed.
+Print Assumptions io_gate_iff.
+(* ... the two hypotheses only name the objects: in every world a history reaches, an I/O's two outputs exist and differ,
+   and every verbosity is one of NORMAL / VERBOSE / VERY_VERBOSE / DEBUG (so Output.section()'s own set_verbosity cannot raise) *)
+Theorem reachable_worlds_are_well_formed : forall k sa se cs h,
+  let w := fst (GateIO.run (world0 k sa se cs) h) in
+  Forall (fun o => valid_verbosity (s_verb o) = true) (w_outs w) /\
+  Forall (fun ab => fst ab < length (w_outs w) /\ snd ab < length (w_outs w) /\ fst ab <> snd ab) (w_ios w).
+Proof. exact reachable_wf. Qed.
+Print Assumptions reachable_worlds_are_well_formed.
+(* which output each method writes to, as transcribed *)
+Example io_delegation_table :
+  map (fun m => fst (fst (io_delegate m))) [IoWrite; IoWriteLine; IoWriteRaw; IoWriteLineRaw] = [WOut; WOut; WOut; WOut] /\
+  map (fun m => fst (fst (io_delegate m))) [IoError; IoErrorLine; IoErrorRaw; IoErrorLineRaw] = [WErr; WErr; WErr; WErr] /\
+  map (fun m => snd (fst (io_delegate m))) [IoWrite; IoWriteLine; IoWriteRaw; IoWriteLineRaw; IoError; IoErrorLine; IoErrorRaw; IoErrorLineRaw]
+    = [MWrite; MWriteLine; MWriteRaw; MWriteLineRaw; MWrite; MWriteLine; MWriteRaw; MWriteLineRaw].
+Proof. repeat split. Qed.
+
+(* in ANY world - every integer verbosity, also one no setter accepts - the answer is Output._may_write of that output *)
+Theorem io_write_asks_the_gate_of_its_output : forall w i m fl ab o,
+  nth_error (w_ios w) i = Some ab -> nth_error (w_outs w) (pick (fst (fst (io_delegate m))) ab) = Some o ->
+  GateIO.step w (IWrite i m fl) = (w, OWrote (s_sid o) (may_write (s_quiet o) (s_verb o) fl)).
+Proof. exact io_write_step. Qed.
+Print Assumptions io_write_asks_the_gate_of_its_output.
+(* ... and so does every text-writing method called on an output object itself: an output, a section, a section of a section *)
+Theorem output_write_asks_its_own_gate : forall w j m fl o,
+  nth_error (w_outs w) j = Some o -> has_method o (meth_of_wm m) = true ->
+  GateIO.step w (OWrite j m fl) =
+    (w, OWrote (s_sid o) (may_write (s_quiet o) (s_verb o) (if takes_flags (meth_of_wm m) then fl else None))).
+Proof. exact out_write_step. Qed.
+Print Assumptions output_write_asks_its_own_gate.
+
+(* (C) set_stream / set_formatter between calls.  The gate does not look at them: two output objects with the same quiet flag
+   and verbosity answer every text-writing method alike - whatever their streams, formatters, indentation, decorated or not,
+   output or section ... *)
+Theorem gate_does_not_depend_on_stream_or_formatter : forall o o' m fl,
+  s_quiet o = s_quiet o' -> s_verb o = s_verb o' ->
+  has_method o (meth_of_wm m) = true -> has_method o' (meth_of_wm m) = true ->
+  out_emits o (meth_of_wm m) fl = out_emits o' (meth_of_wm m) fl.
+Proof. exact out_gate_ignores_the_rest. Qed.
+Print Assumptions gate_does_not_depend_on_stream_or_formatter.
+
+(* WHAT THE SETTERS OF THE I/O REACH.  io.set_quiet(q) / io.set_verbosity(v), on any I/O of any world: BOTH outputs of that I/O
+   get the value (nothing else about them changes), EVERY other output - the sections made from them BEFORE included - is left
+   exactly as it was, and a section made AFTERWARDS (io.section()) starts with the value on both of its outputs (cf. /repo
+   e696a15).  An invalid verbosity raises ValueError and changes nothing. *)
+Theorem io_setters_reach_both_outputs : forall w i a b oa ob,
+  nth_error (w_ios w) i = Some (a, b) -> nth_error (w_outs w) a = Some oa -> nth_error (w_outs w) b = Some ob ->
+  (forall q, let r := GateIO.step w (ISetQuiet i q) in let w' := fst r in
+     snd r = ODone /\ nth_error (w_outs w') a = Some (put_quiet q oa) /\ nth_error (w_outs w') b = Some (put_quiet q ob) /\
+     (forall j, j <> a -> j <> b -> nth_error (w_outs w') j = nth_error (w_outs w) j) /\
+     w_ios w' = w_ios w /\ length (w_outs w') = length (w_outs w) /\
+     (w_cansec w = true ->
+      let w2 := fst (GateIO.step w' (ISection i)) in
+      snd (GateIO.step w' (ISection i)) = ODone /\
+      nth_error (w_ios w2) (length (w_ios w)) = Some (length (w_outs w), S (length (w_outs w))) /\
+      nth_error (w_outs w2) (length (w_outs w)) = Some (section_of (put_quiet q oa)) /\
+      nth_error (w_outs w2) (S (length (w_outs w))) = Some (section_of (put_quiet q ob)))) /\
+  (forall v, valid_verbosity v = true -> let r := GateIO.step w (ISetVerbosity i v) in let w' := fst r in
+     snd r = ODone /\ nth_error (w_outs w') a = Some (put_verb v oa) /\ nth_error (w_outs w') b = Some (put_verb v ob) /\
+     (forall j, j <> a -> j <> b -> nth_error (w_outs w') j = nth_error (w_outs w) j) /\
+     w_ios w' = w_ios w /\ length (w_outs w') = length (w_outs w) /\
+     (w_cansec w = true ->
+      let w2 := fst (GateIO.step w' (ISection i)) in
+      snd (GateIO.step w' (ISection i)) = ODone /\
+      nth_error (w_ios w2) (length (w_ios w)) = Some (length (w_outs w), S (length (w_outs w))) /\
+      nth_error (w_outs w2) (length (w_outs w)) = Some (section_of (put_verb v oa)) /\
+      nth_error (w_outs w2) (S (length (w_outs w))) = Some (section_of (put_verb v ob)))) /\
+  (forall v, valid_verbosity v = false -> GateIO.step w (ISetVerbosity i v) = (w, ORaised ValueError)).
+Proof. exact io_setters_lemma. Qed.
+Print Assumptions io_setters_reach_both_outputs.
+(* ... in particular a section made BEFORE the I/O is silenced (or turned up) keeps what it started with: the setters of an
+   I/O do not reach the sections made from it earlier (they are objects of their own; their own setters do) *)
+Theorem older_sections_keep_their_settings : forall w i a b oa ob s,
+  nth_error (w_ios w) i = Some (a, b) -> nth_error (w_outs w) a = Some oa -> nth_error (w_outs w) b = Some ob ->
+  w_cansec w = true -> (exists q, s = ISetQuiet i q) \/ (exists v, s = ISetVerbosity i v) ->
+  let w1 := fst (GateIO.step w (ISection i)) in
+  let w2 := fst (GateIO.step w1 s) in
+  nth_error (w_ios w2) (length (w_ios w)) = Some (length (w_outs w), S (length (w_outs w))) /\
+  nth_error (w_outs w2) (length (w_outs w)) = Some (section_of oa) /\
+  nth_error (w_outs w2) (S (length (w_outs w))) = Some (section_of ob).
+Proof. exact older_section_untouched. Qed.
+Print Assumptions older_sections_keep_their_settings.
+
+(* SECTIONS OF SECTIONS exist in the code: SectionOutput inherits Output.section().  Called on ANY output object x - an output,
+   a section, a section of a section - it makes a section output on x's stream that starts with x's quiet flag, verbosity and
+   indentation (and x's formatter); afterwards the two are independent objects.  (The new object keeps its own, fresh list of
+   sections - `self._section_outputs` of x, not the list x itself lives in -, so the STACKING of C15 does not extend to it:
+   Model/GatedSection.v and C15 do not model a section of a section; the gate does.) *)
+Theorem section_of_any_output_starts_with_its_settings : forall w j x, nth_error (w_outs w) j = Some x ->
+  GateIO.step w (OSection j) =
+    ({| w_outs := w_outs w ++ [section_of x]; w_ios := w_ios w; w_inter := w_inter w; w_cansec := w_cansec w |}, ODone) /\
+  s_quiet (section_of x) = s_quiet x /\ s_verb (section_of x) = s_verb x /\ s_indent (section_of x) = s_indent x /\
+  s_sid (section_of x) = s_sid x /\ s_fk (section_of x) = s_fk x /\ s_sec (section_of x) = true.
+Proof. exact out_section_step. Qed.
+Print Assumptions section_of_any_output_starts_with_its_settings.
+
+(* ONLY THE LAST VALUE COUNTS.  gives_quiet w op j / gives_verb w op j: the quiet value / the (valid) verbosity the call op gives
+   to output j - io.set_quiet / set_verbosity when j is one of the two outputs of that I/O, output.set_quiet / set_verbosity
+   when it is that output; every other call, and set_verbosity with an invalid level, gives none.  After ANY history h -
+   setters in any order and repetition, set_stream, set_formatter, indent, set_interactive, section() at every level, writes,
+   calls that raise - an output that existed at the start has the LAST quiet value and the LAST verbosity a call of h gave it,
+   or what it had when no call gave it one. *)
+Theorem settings_are_the_last_values_given : forall w j o, nth_error (w_outs w) j = Some o -> forall h,
+  option_map s_quiet (nth_error (w_outs (GateIO.exec w h)) j) = Some (or_else (last_given (fun op => gives_quiet w op j) h) (s_quiet o)) /\
+  option_map s_verb (nth_error (w_outs (GateIO.exec w h)) j) = Some (or_else (last_given (fun op => gives_verb w op j) h) (s_verb o)).
+Proof. exact last_value_lemma. Qed.
+Print Assumptions settings_are_the_last_values_given.
+Theorem run_ends_where_exec_ends : forall h w, fst (GateIO.run w h) = GateIO.exec w h.
+Proof. exact run_exec. Qed.
+Print Assumptions run_ends_where_exec_ends.
+(* ... hence two histories that give the two outputs of an I/O the same last values leave each of its eight writing methods
+   with the same answer, for every flag word - whatever else the histories did and in whatever order *)
+Theorem gate_depends_only_on_the_last_values_given : forall w i a b h1 h2,
+  wf w -> nth_error (w_ios w) i = Some (a, b) ->
+  (forall j, j = a \/ j = b ->
+     last_given (fun op => gives_quiet w op j) h1 = last_given (fun op => gives_quiet w op j) h2 /\
+     last_given (fun op => gives_verb w op j) h1 = last_given (fun op => gives_verb w op j) h2) ->
+  forall m fl, emitted (snd (GateIO.step (GateIO.exec w h1) (IWrite i m fl))) = emitted (snd (GateIO.step (GateIO.exec w h2) (IWrite i m fl))).
+Proof. exact same_last_values_same_gate. Qed.
+Print Assumptions gate_depends_only_on_the_last_values_given.
+(* ... and a set_quiet and a set_verbosity - each on an I/O or on one output, the same objects or different ones, a valid
+   level or one that raises - leave the SAME WORLD in either order *)
+Theorem set_quiet_and_set_verbosity_commute : forall w s1 s2, is_quiet_setter s1 = true -> is_verb_setter s2 = true ->
+  GateIO.exec w [s1; s2] = GateIO.exec w [s2; s1].
+Proof. exact quiet_verb_commute. Qed.
+Print Assumptions set_quiet_and_set_verbosity_commute.
+
+(* MONOTONE ALONG HISTORIES.  raises op op': op' is op itself, or the same set_quiet leaving quiet mode where op entered it
+   (q' = true -> q = true), or the same set_verbosity with a level at least as high (both valid).  obs_le x x': the two calls
+   showed the same, except that a writing call whose text did not reach the stream in x may reach it in x' - never the other
+   way round.  For every pair of histories related call by call: every text shown by the first is shown by the second, on the
+   same stream.  Raising the verbosity or leaving quiet mode ANYWHERE in a history never removes a write ANYWHERE later. *)
+Theorem io_monotone : forall k sa se cs h h', Forall2 raises h h' ->
+  Forall2 obs_le (snd (GateIO.run (world0 k sa se cs) h)) (snd (GateIO.run (world0 k sa se cs) h')).
+Proof. exact io_monotone_lemma. Qed.
+Print Assumptions io_monotone.
+(* the same from any two worlds of which the second is at least as permissive, output by output (le_world) *)
+Theorem io_monotone_from_any_worlds : forall h h', Forall2 raises h h' -> forall w w', le_world w w' ->
+  Forall2 obs_le (snd (GateIO.run w h)) (snd (GateIO.run w' h')) /\ le_world (fst (GateIO.run w h)) (fst (GateIO.run w' h')).
+Proof. exact run_le. Qed.
+Print Assumptions io_monotone_from_any_worlds.
+
+(* ---- instances (the hypotheses above are inhabited; the histories of the task) ---- *)
+Definition w_plain : world := world0 FPlain false false true.
+(* "set_verbosity; write; set_quiet; write" and "set_quiet; write; set_verbosity; write": in BOTH orders *)
+Example setters_in_both_orders :
+  snd (GateIO.run w_plain [ISetVerbosity 0 VERBOSE; IWrite 0 IoWriteLine (Some VERBOSE); ISetQuiet 0 true;
+                           IWrite 0 IoWriteLine (Some VERBOSE); IWrite 0 IoErrorLine None])
+    = [ODone; OWrote 0 true; ODone; OWrote 0 false; OWrote 1 false] /\
+  snd (GateIO.run w_plain [ISetQuiet 0 true; IWrite 0 IoWriteLine (Some VERBOSE); ISetVerbosity 0 VERBOSE;
+                           IWrite 0 IoWriteLine (Some VERBOSE); ISetQuiet 0 false; IWrite 0 IoErrorLine (Some VERBOSE);
+                           IWrite 0 IoErrorRaw (Some VERY_VERBOSE)])
+    = [ODone; OWrote 0 false; ODone; OWrote 0 false; ODone; OWrote 1 true; OWrote 1 false] /\
+  GateIO.exec w_plain [ISetQuiet 0 true; ISetVerbosity 0 DEBUG] = GateIO.exec w_plain [ISetVerbosity 0 DEBUG; ISetQuiet 0 true].
+Proof. vm_compute. repeat split. Qed.
+(* a section made before the I/O is silenced still writes (I/O 1, outputs 2 and 3); the I/O itself does not; a section made
+   afterwards (I/O 2, outputs 4 and 5) starts quiet and stays so when the parent leaves quiet mode; a section of that section
+   (output 6) starts quiet too, until it is told otherwise itself - and then overwrite, which takes no flags, writes *)
+Example io_setters_and_sections :
+  snd (GateIO.run w_plain [ISection 0; ISetQuiet 0 true; IWrite 1 IoWriteLine None; IWrite 1 IoError None; IWrite 0 IoWriteLine None;
+                           ISection 0; IWrite 2 IoErrorLine None; ISetQuiet 0 false; IWrite 2 IoErrorLine None; IWrite 0 IoErrorLine None;
+                           OSection 4; OWrite 6 WmWriteLine None; OSetQuiet 6 false; OWrite 6 WmOverwrite None; OWrite 4 WmWriteLine None])
+    = [ODone; ODone; OWrote 0 true; OWrote 1 true; OWrote 0 false;
+       ODone; OWrote 1 false; ODone; OWrote 1 false; OWrote 1 true;
+       ODone; OWrote 0 false; ODone; OWrote 0 true; OWrote 0 false].
+Proof. vm_compute. reflexivity. Qed.
+(* an invalid level raises and changes nothing; NullIO cannot make a section; set_stream moves the text, set_formatter and
+   set_stream change `decorated`, neither changes the gate; an Output has no overwrite *)
+Example invalid_level_null_io_streams :
+  GateIO.step w_plain (ISetVerbosity 0 3) = (w_plain, ORaised ValueError) /\
+  GateIO.step w_plain (OSetVerbosity 1 (-1)) = (w_plain, ORaised ValueError) /\
+  GateIO.step (world0 FNull false false false) (ISection 0) = (world0 FNull false false false, ORaised TYPE_ERROR) /\
+  GateIO.step w_plain (OWrite 0 WmOverwrite None) = (w_plain, ORaised ATTRIBUTE_ERROR) /\
+  snd (GateIO.run w_plain [ISetVerbosity 0 VERBOSE; OSetStream 1 2 true; ISetFormatter 0 (FAnsi false); IWrite 0 IoError (Some VERBOSE);
+                           IWrite 0 IoError (Some DEBUG); IWrite 0 IoWrite (Some VERBOSE)])
+    = [ODone; ODone; ODone; OWrote 2 true; OWrote 2 false; OWrote 0 true] /\
+  map s_fo (w_outs (GateIO.exec w_plain [OSetStream 1 2 true; ISetFormatter 0 FPlain])) = [false; true] /\
+  map s_fo (w_outs (GateIO.exec (world0 FPlain true true true) [])) = [false; false].
+Proof. vm_compute. repeat split. Qed.
+(* io_monotone is not vacuous: two related histories, the second leaves quiet mode and raises the verbosity; a text refused
+   in the first is shown in the second *)
+Example io_monotone_instance :
+  let h := [ISetQuiet 0 true; ISetVerbosity 0 NORMAL; ISection 0; IWrite 1 IoErrorLine (Some VERY_VERBOSE); IWrite 0 IoWrite None] in
+  let h' := [ISetQuiet 0 false; ISetVerbosity 0 VERY_VERBOSE; ISection 0; IWrite 1 IoErrorLine (Some VERY_VERBOSE); IWrite 0 IoWrite None] in
+  Forall2 raises h h' /\
+  snd (GateIO.run w_plain h) = [ODone; ODone; ODone; OWrote 1 false; OWrote 0 false] /\
+  snd (GateIO.run w_plain h') = [ODone; ODone; ODone; OWrote 1 true; OWrote 0 true].
+Proof.
+  split; [|vm_compute; split; reflexivity].
+  repeat constructor; try discriminate; try reflexivity; unfold NORMAL, VERY_VERBOSE; discriminate.
+Qed.
+(* the last values given: output 1 (the error output) is reached by io.set_quiet and by its own setter, not by output 0's;
+   an invalid level gives nothing *)
+Example last_values_instance :
+  let h := [ISetQuiet 0 true; ISetVerbosity 0 DEBUG; OSetQuiet 0 false; OSetVerbosity 0 VERBOSE; ISetVerbosity 0 3; IWrite 0 IoError None] in
+  last_given (fun op => gives_quiet w_plain op 1) h = Some true /\ last_given (fun op => gives_verb w_plain op 1) h = Some DEBUG /\
+  last_given (fun op => gives_quiet w_plain op 0) h = Some false /\ last_given (fun op => gives_verb w_plain op 0) h = Some VERBOSE /\
+  map (fun o => (s_quiet o, s_verb o)) (w_outs (GateIO.exec w_plain h)) = [(false, VERBOSE); (true, DEBUG)] /\ wf w_plain.
+Proof. split; [|split; [|split; [|split; [|split]]]]; try (vm_compute; reflexivity). apply wf_world0. Qed.
